@@ -785,16 +785,24 @@ func (s *Shard) createFieldsAndMeasurements(fieldsToCreate []*FieldCreate) error
 	}
 
 	// add fields
+	var createErr error
 	for _, f := range fieldsToCreate {
 		mf := engine.MeasurementFields(f.Measurement)
 		if err := mf.CreateFieldIfNotExists([]byte(f.Field.Name), f.Field.Type); err != nil {
-			return err
+			// The fields created so far remain in the in-memory field set and later
+			// writes are validated (and stored) against them, so they have to be
+			// persisted as well before the batch is refused.
+			createErr = err
+			break
 		}
 
 		s.index.SetFieldName(f.Measurement, f.Field.Name)
 	}
 
-	return engine.MeasurementFieldSet().Save()
+	if err := engine.MeasurementFieldSet().Save(); err != nil {
+		return err
+	}
+	return createErr
 }
 
 // DeleteSeriesRange deletes all values from for seriesKeys between min and max (inclusive)
